@@ -74,6 +74,7 @@ class Route:
         pattern_out = self.pattern_out
 
         ret = []
+        to_check = []
         pidx = 0
         args_idx = 0
         cidx = 0
@@ -103,13 +104,16 @@ class Route:
             if f_out:
                 prt = f_out(prt)
             if f_in:
-                assert f_in(prt)[1]  # `pos` must be > 0 if match
+                to_check.append((len(ret), f_in))
             ret.append(prt)
 
         if clen:
             end = cidx + clen
             ret.append(pattern_out[cidx:end])
 
+        # a filter may look ahead at what follows it (`path`, `re`): check it against the rest of the url
+        for idx, f_in in to_check:
+            assert f_in(''.join(ret[idx:]))[0] is not None  # the filter reports no value if it does not match
         return ''.join(ret)
 
     def _set_methods(self, methods, handler, meta=None, params=None):
